@@ -118,7 +118,6 @@ def drive_c03(sess, rnd, cfg, record):
     x = rnd.random()
     klass = "modest" if x < 0.4 else ("stress" if x < 0.8 else "micro")
     cfg["c03_class"] = klass
-    cfg["neg_params"] = 0.0
     cfg["w"] = dict(cfg["w"], reject=0.1, analyse=0.1, restart=0.1, observe=0.0, domfault=0.0)
     if klass == "micro":
         cfg["micro"] = True
